@@ -66,6 +66,13 @@ def sink_process_token(m, a, c):
     tok, line = a[1], a[2]
     snap = tok_snapshot(tok)
     m.notes.setdefault("tokens", []).append((snap, line))
+    q = m.notes.get("q")
+    if q is not None:
+        # characters of the fed input that are no longer waiting in any input queue
+        left = sum(len(b.ch) for b in q.bufs) + sum(len(b.ch) for aq in m.notes.get("aux_queues", []) for b in aq.bufs)
+        m.notes.setdefault("positions", []).append(m.notes.get("fed", 0) - left)
+    else:
+        m.notes.setdefault("positions", []).append(None)
     if m.notes.get("seen_eof"):
         m.notes["token_after_eof"] = True
     if snap[0] == "EOF":
@@ -168,7 +175,7 @@ def load_entities(prog, path):
 
 
 class PathResult:
-    __slots__ = ("pc", "tokens", "outcome", "final_state", "decisions", "feed_results", "queue_left", "line", "notes", "steps")
+    __slots__ = ("pc", "tokens", "positions", "outcome", "final_state", "decisions", "feed_results", "queue_left", "line", "notes", "steps")
 
 
 def run_one(prog, cfg, decisions, chars):
@@ -187,11 +194,13 @@ def run_one(prog, cfg, decisions, chars):
         tk = m.call("Tokenizer::new", [Struct("Sink", []), opts])
         tkp = Ptr([tk], 0)
         q = BufQ()
+        m.notes["q"] = q
         qp = Ptr([q], 0)
         chunks = cfg.chunks if cfg.chunks is not None else [chars]
         for ch in chunks:
             if ch:
                 q.bufs.append(Tendril(ch))
+                m.notes["fed"] = m.notes.get("fed", 0) + len(ch)
             res = m.call("Tokenizer::feed", [tkp, qp])
             r.feed_results.append(res.variant if isinstance(res, Enum) else repr(res))
             # a Script result suspends the tokenizer; the harness resumes at once (C03 script half is separate)
@@ -224,6 +233,7 @@ def run_one(prog, cfg, decisions, chars):
         r.queue_left = False
     r.pc = list(m.pc)
     r.tokens = list(m.notes.get("tokens", []))
+    r.positions = list(m.notes.get("positions", []))
     r.decisions = list(m.taken)
     r.notes = {k: v for k, v in m.notes.items() if k in ("token_after_eof", "seen_eof")}
     r.steps = m.steps
@@ -283,7 +293,8 @@ def normalize(tokens, drop_errors=True, keep_lines=False):
             if not snap[1]:
                 continue
             if out and out[-1][0] == "Chars":
-                out[-1] = ("Chars", out[-1][1] + snap[1]) + ((out[-1][2],) if keep_lines else ())
+                # a merged run carries the line of its last piece (= line when the run was complete)
+                out[-1] = ("Chars", out[-1][1] + snap[1]) + ((line,) if keep_lines else ())
                 continue
             out.append(("Chars", snap[1]) + ((line,) if keep_lines else ()))
             continue
